@@ -140,7 +140,9 @@ pub fn complete_path(word: &str, for_dir: bool) -> Vec<Completion> {
                         // reads back unchanged inside it; otherwise use the
                         // other quote, or backslash escapes.
                         let fits_single = !name.contains('\'');
-                        let fits_double = !name.contains(|c| c == '"' || c == '$' || c == '\\' || c == '`');
+                        // (`!!` is replaced by the previous command inside
+                        // double quotes)
+                        let fits_double = !name.contains(|c| c == '"' || c == '$' || c == '\\' || c == '`' || c == '!');
                         let sep = if path_sep == "'" && fits_single || path_sep == "\"" && fits_double {
                             path_sep.as_str()
                         } else if fits_single {
